@@ -158,6 +158,15 @@ Theorem C07_spec_marked : forall hi root its w m,
 Proof. exact spec_marked. Qed.
 Print Assumptions C07_spec_marked.
 
+(* a sub-composition that is disabled at the entry's level emits nothing and registers nothing, whether or
+   not an earlier core of a tee already accepted the entry: in particular a hooked core around it does not
+   run its hooks (hooked.Check after "fix: hooked.Check runs the hooks only when the wrapped core accepted
+   the entry"), and a lazyWithCore around it is not evaluated (lazyWithCore.Check asks originalCore.Enabled first) *)
+Theorem C07_disabled_silent : forall m hi nm msg w fs c ch nn, senabled hi c = false ->
+  swalk m hi nm msg w fs c ch nn = ([], [], nn).
+Proof. exact swalk_disabled. Qed.
+Print Assumptions C07_disabled_silent.
+
 (* the oracle the driver runs is the proved specification *)
 Theorem C07_wire : forall i, wf i = true -> spec i (model i) = true.
 Proof. exact spec_model. Qed.
